@@ -455,3 +455,165 @@ pub fn shrink(e: &GE, fails: &dyn Fn(&GE) -> bool) -> GE {
         return cur;
     }
 }
+
+// ------------------------------------------------------------------ layout mutator
+
+fn pickws<'a>(rng: &mut Rng, opts: &[&'a str]) -> &'a str {
+    opts[rng.below(opts.len())]
+}
+
+const WS_ANY: &[&str] = &["", " ", "  ", "\t", "\n", " \n  ", "\n\n", " // c\n ", "\r\n"];
+const WS_SOME: &[&str] = &[" ", "  ", "\t", "\n", " \n  ", "\n ", " // c\n "];
+const WS_SPACES: &[&str] = &[" ", "  ", "\t", " \t"];
+const WS_SPACES0: &[&str] = &["", " ", "  ", "\t"];
+const NLS: &[&str] = &["", "\n", "\n\n", "// c\n", "\r\n"];
+const LIST_WS: &[&str] = &["", " ", "\n", "\n  ", " \n ", "\t"];
+/// symbolic operators that may be written without surrounding whitespace after any operand
+const TIGHT_OK: &[&str] = &["+", "*", "/", "%", "^", "==", "<=", ">=", "<", ">", "&&", "||", "??"];
+
+/// operand with optional redundant parentheses and inner layout
+fn lay_operand(e: &GE, rng: &mut Rng) -> String {
+    let inner = lay(e, rng);
+    if is_atom(e) && !rng.chance(1, 4) {
+        inner
+    } else {
+        let a = pickws(rng, WS_ANY).to_string();
+        let b = pickws(rng, WS_ANY);
+        let s = format!("({}{}{})", a, inner, b);
+        if rng.chance(1, 8) { format!("({})", s) } else { s }
+    }
+}
+
+/// The same tree as `to_source`, with a random choice at every place where the grammar
+/// admits optional layout (spaces, line breaks, inline comments, redundant parentheses,
+/// trailing commas).
+pub fn lay(e: &GE, rng: &mut Rng) -> String {
+    match e {
+        GE::List(items) => {
+            if items.is_empty() {
+                return "[]".into();
+            }
+            let mut s = String::from("[");
+            s.push_str(pickws(rng, LIST_WS));
+            for (i, it) in items.iter().enumerate() {
+                if i > 0 {
+                    s.push(',');
+                    s.push_str(pickws(rng, LIST_WS));
+                }
+                s.push_str(&lay(&it.node, rng));
+                s.push_str(pickws(rng, WS_SPACES0));
+            }
+            if rng.chance(1, 3) {
+                s.push(',');
+            }
+            s.push_str(pickws(rng, LIST_WS));
+            s.push(']');
+            s
+        }
+        GE::Record(es) => {
+            if es.is_empty() {
+                return "{}".into();
+            }
+            let mut s = String::from("{");
+            s.push_str(pickws(rng, LIST_WS));
+            for (i, en) in es.iter().enumerate() {
+                if i > 0 {
+                    s.push(',');
+                    s.push_str(pickws(rng, LIST_WS));
+                }
+                let t = match &en.key {
+                    GKey::Static(k) => format!("{}{}:{}{}", k, pickws(rng, WS_SPACES0), pickws(rng, NLS), lay(&en.value, rng)),
+                    GKey::Quoted(k) => format!("{}{}:{}{}", str_literal(k), pickws(rng, WS_SPACES0), pickws(rng, NLS), lay(&en.value, rng)),
+                    GKey::Dynamic(k) => format!("[{}]:{}{}", lay(k, rng), pickws(rng, WS_SPACES0), lay(&en.value, rng)),
+                    GKey::Shorthand(k) => k.clone(),
+                    GKey::Spread(x) => format!("...{}", lay(x, rng)),
+                };
+                s.push_str(&t);
+                s.push_str(pickws(rng, WS_SPACES0));
+            }
+            if rng.chance(1, 3) {
+                s.push(',');
+            }
+            s.push_str(pickws(rng, LIST_WS));
+            s.push('}');
+            s
+        }
+        GE::Lambda(args, body) => {
+            let a = if args.len() == 1 && !args[0].ends_with('?') && !args[0].starts_with("...") && rng.chance(1, 2) {
+                args[0].clone()
+            } else {
+                let mut s = String::from("(");
+                s.push_str(pickws(rng, NLS));
+                for (i, x) in args.iter().enumerate() {
+                    if i > 0 {
+                        s.push(',');
+                        s.push_str(pickws(rng, NLS));
+                        s.push_str(pickws(rng, WS_SPACES0));
+                    }
+                    s.push_str(x);
+                }
+                if !args.is_empty() && rng.chance(1, 4) {
+                    s.push_str(",\n");
+                }
+                s.push_str(pickws(rng, NLS));
+                s.push(')');
+                s
+            };
+            format!("{}{}=>{}{}", a, pickws(rng, WS_SPACES0), pickws(rng, WS_ANY), lay_operand(body, rng))
+        }
+        GE::Cond(c, t, e2) => format!(
+            "if{}{}{}then{}{}{}else{}{}",
+            pickws(rng, WS_SPACES),
+            lay_operand(c, rng),
+            pickws(rng, WS_SOME),
+            pickws(rng, WS_SOME),
+            lay_operand(t, rng),
+            pickws(rng, WS_SOME),
+            pickws(rng, WS_SOME),
+            lay_operand(e2, rng)
+        ),
+        GE::Assign(n, v) => format!("{}{}={}{}", n, pickws(rng, WS_SPACES0), pickws(rng, WS_SPACES0), lay(v, rng)),
+        GE::Call(f, args) => {
+            let mut s = lay_operand(f, rng);
+            s.push('(');
+            s.push_str(pickws(rng, NLS));
+            for (i, a) in args.iter().enumerate() {
+                if i > 0 {
+                    s.push_str(pickws(rng, WS_SPACES0));
+                    s.push(',');
+                    s.push_str(pickws(rng, NLS));
+                    s.push_str(pickws(rng, WS_SPACES0));
+                }
+                s.push_str(&lay(a, rng));
+            }
+            if !args.is_empty() && rng.chance(1, 4) {
+                s.push_str(",\n");
+            }
+            s.push_str(pickws(rng, NLS));
+            s.push(')');
+            s
+        }
+        GE::Access(x, i) => format!("{}[{}{}{}]", lay_operand(x, rng), pickws(rng, &["", "\n", "\n\n"]), lay(i, rng), pickws(rng, &["", "\n"])),
+        GE::Dot(x, f) => format!("{}.{}", lay_operand(x, rng), f),
+        GE::Bin(op, l, r) => {
+            let natural = matches!(*op, "and" | "or" | "via" | "into" | "where");
+            let ls = lay_operand(l, rng);
+            let rs = lay_operand(r, rng);
+            if natural {
+                format!("{}{}{}{}{}", ls, pickws(rng, WS_SOME), op, pickws(rng, WS_SPACES), rs)
+            } else if TIGHT_OK.contains(op) && !ls.ends_with('!') && !rs.starts_with('=') {
+                format!("{}{}{}{}{}", ls, pickws(rng, WS_ANY), op, pickws(rng, WS_ANY), rs)
+            } else {
+                format!("{}{}{}{}{}", ls, pickws(rng, WS_SOME), op, pickws(rng, WS_SOME), rs)
+            }
+        }
+        GE::Neg(x) => format!("-{}", lay_operand(x, rng)),
+        GE::Not(x, natural) => {
+            if *natural { format!("not{}{}", pickws(rng, WS_SPACES), lay_operand(x, rng)) } else { format!("!{}", lay_operand(x, rng)) }
+        }
+        GE::Fact(x) => format!("{}!", lay_operand(x, rng)),
+        GE::Spread(x) => format!("...{}", lay(x, rng)),
+        // atoms and do-blocks: reference text
+        _ => to_source(e, 0),
+    }
+}
